@@ -1,9 +1,238 @@
-(* Props/C10.v — property C10: built-in generators produce the tilings they are named after. *)
+(* Props/C10.v — property C10: the built-in lattice generators produce the tilings they are named after;
+   tile_unit_cell yields exactly nx*ny translated copies with correct crossings and the tiled colouring.
+
+   Models: Model/Tiling.v (tile_unit_cell) and Model/Examples.v (generators), both defined over the scalar
+   helpers GENERATED from example_graphs.py on every run (Gen/TilingGen.v: py_next_cell_number, py_crossing,
+   honeycomb_next_direction, hso_next_direction); polygon census through Model/Lattice.v's plaquette finder.
+
+   NOT covered by a theorem (S/K only, harness/c10.py): the float values of the positions (cos/sin/sqrt/
+   linspace; compared to 1e-12); single_plaquette / higher_coordination_number_example / wobbling ladder
+   census (their positions come from cos/sin: checked on the implementation for n = 3..40 / 3..30);
+   polygon census of tilings of RANDOM unit cells (checked on the implementation); the census theorems are
+   bounded to the quantifier's size ranges (polygons_all_sizes, the translation-equivariance argument that
+   would remove the bound, was not attempted). *)
 From Coq Require Import List ZArith Bool Arith.
-From Koala Require Import Gen.TilingGen Model.Lattice Model.Tiling Model.Examples Proofs.TilingFacts.
+From Koala Require Import Gen.TilingGen Model.Lattice Model.Tiling Model.Examples
+     Proofs.TilingFacts Proofs.TilingCount Proofs.ExamplesFacts Proofs.ExamplesIndex
+     Proofs.ExamplesCensus Proofs.ExamplesClaims.
 Import ListNotations.
 Open Scope Z_scope.
 
-Theorem C10_zrange_length : forall n, length (zrange n) = Z.to_nat n.
-Proof. exact zrange_length. Qed.
-Print Assumptions C10_zrange_length.
+(* ===== Clause "tiling a unit cell nx x ny yields exactly nx*ny translated copies of its vertices and edges
+   with correct crossings" — for ALL nx, ny >= 1 and ALL unit cells with crossings in {-1,0,1}^2
+   (multi-edges, self-loops allowed), over the generated _next_cell_number / _crossing:
+   copy (mx,my) of site s is (p_s + (mx,my)) / (nx,ny); copy (mx,my) of edge e = (j,k), crossing (cx,cy), joins
+   site j of cell (mx,my) to site k of cell ((mx+cx) mod nx, (my+cy) mod ny), with crossing = the wrap
+   indicator ((mx+cx) div nx, (my+cy) div ny). *)
+Theorem C10_tile_structure :
+  forall (c : unit_cell) (nx ny : Z), 1 <= nx -> 1 <= ny -> wf_cell c = true ->
+  let T := tile_unit_cell c nx ny in
+  let ns := n_sites c in
+  let ne := n_uedges c in
+  z_scale T = uc_scale c * nx * ny /\
+  zlen (z_pos T) = nx * ny * ns /\ zlen (z_edges T) = nx * ny * ne /\ zlen (z_crossing T) = nx * ny * ne /\
+  (forall mx my s, 0 <= mx < nx -> 0 <= my < ny -> 0 <= s < ns ->
+     znth ((my * nx + mx) * ns + s) (z_pos T) (0,0)
+     = ((fst (znth s (uc_points c) (0,0)) + mx * uc_scale c) * ny,
+        (snd (znth s (uc_points c) (0,0)) + my * uc_scale c) * nx)) /\
+  (forall mx my e, 0 <= mx < nx -> 0 <= my < ny -> 0 <= e < ne ->
+     let j := fst (znth e (uc_edges c) (0,0)) in
+     let k := snd (znth e (uc_edges c) (0,0)) in
+     let cx := fst (znth e (uc_crossing c) (0,0)) in
+     let cy := snd (znth e (uc_crossing c) (0,0)) in
+     znth ((my * nx + mx) * ne + e) (z_edges T) (0,0)
+       = (j + (my * nx + mx) * ns, k + (((my + cy) mod ny) * nx + (mx + cx) mod nx) * ns) /\
+     znth ((my * nx + mx) * ne + e) (z_crossing T) (0,0) = ((mx + cx) / nx, (my + cy) / ny)).
+Proof. exact tile_structure. Qed.
+Print Assumptions C10_tile_structure.
+
+(* the wrap indicator is -1, 0 or +1, and 0 exactly when the step stays inside the torus cell *)
+Theorem C10_wrap_indicator :
+  forall n x c, 1 <= n -> 0 <= x < n -> -1 <= c <= 1 ->
+  (x + c) / n = (if x + c <? 0 then -1 else if n <=? x + c then 1 else 0).
+Proof. exact wrap_indicator. Qed.
+Print Assumptions C10_wrap_indicator.
+
+(* ===== Clause "... and the tiled colouring": copy (n, e) gets the colour of e, and the tiled colouring of a
+   proper 3-edge-colouring of the cell is a proper 3-edge-colouring of the tiling, for ALL nx, ny >= 1. *)
+Theorem C10_tile_coloring :
+  forall (col : list Z) (nx ny : Z), 1 <= nx -> 1 <= ny ->
+  zlen (tile_coloring col nx ny) = nx * ny * zlen col /\
+  forall n e, 0 <= n < nx * ny -> 0 <= e < zlen col ->
+    znth (n * zlen col + e) (tile_coloring col nx ny) 0 = znth e col 0.
+Proof. exact tile_coloring_structure. Qed.
+Print Assumptions C10_tile_coloring.
+
+Theorem C10_tile_coloring_proper :
+  forall (c : unit_cell) (col : list Z) (nx ny : Z), 1 <= nx -> 1 <= ny -> wf_cell c = true ->
+  proper_coloring (n_sites c) (uc_edges c) col = true ->
+  proper_coloring (nx * ny * n_sites c) (tile_edges c nx ny) (tile_coloring col nx ny) = true.
+Proof. exact tile_coloring_proper. Qed.
+Print Assumptions C10_tile_coloring_proper.
+
+(* what proper_coloring means: one colour in {0,1,2} per edge, and at every vertex each colour occurs on at
+   most one edge END (so a self-loop is never properly coloured) *)
+Theorem C10_proper_coloring_meaning :
+  forall nv es col, proper_coloring nv es col = true ->
+  length col = length es /\ (forall c, In c col -> 0 <= c <= 2) /\
+  (forall v x, 0 <= v < nv -> cnt es col v x <= 1).
+Proof. exact proper_coloring_elim. Qed.
+Print Assumptions C10_proper_coloring_meaning.
+
+(* ===== Clause "honeycomb: ... trivalent", index structure for ALL n >= 1 (n_vertical = round(n/sqrt 3)):
+   4*n*nv sites, 6*n*nv edges; edge (cell, type) joins the stated sites of the stated neighbouring cells with
+   crossing = (signed) wrap indicator, and carries the stated colour. *)
+Theorem C10_honeycomb_index_structure :
+  forall n : Z, 1 <= n ->
+  let nv := honeycomb_nv n in let N := nv * n in let L := honeycomb n in
+  1 <= nv /\
+  (zlen (z_pos L) = 4 * N /\ zlen (z_edges L) = 6 * N /\ zlen (z_crossing L) = 6 * N /\
+   zlen (honeycomb_coloring n) = 6 * N /\ zlen (make_honeycomb_ujk n) = 6 * N) /\
+  (forall v, 0 <= v < 4 * N -> zdegree (z_edges L) v = 3) /\
+  (forall cx cy, 0 <= cx < n -> 0 <= cy < nv -> let c := cy * n + cx in
+     znth (3*c) (z_edges L) (0,0) = (4*c, 4*c+1) /\ znth (3*c+1) (z_edges L) (0,0) = (4*c+2, 4*c+1) /\
+     znth (3*c+2) (z_edges L) (0,0) = (4*c+2, 4*c+3) /\
+     znth (3*c) (z_crossing L) (0,0) = (0,0) /\ znth (3*c+1) (z_crossing L) (0,0) = (0,0) /\
+     znth (3*c+2) (z_crossing L) (0,0) = (0,0) /\
+     znth (3*c) (honeycomb_coloring n) 0 = 0 /\ znth (3*c+1) (honeycomb_coloring n) 0 = 2 /\
+     znth (3*c+2) (honeycomb_coloring n) 0 = 0 /\
+     znth (3*N + c) (z_edges L) (0,0) = (4*c+2, 4*(cy*n + (cx+1) mod n) + 1) /\
+     znth (3*N + c) (z_crossing L) (0,0) = ((cx+1)/n, 0) /\ znth (3*N + c) (honeycomb_coloring n) 0 = 1 /\
+     znth (4*N + c) (z_edges L) (0,0) = (4*(((cy+1) mod nv)*n + cx), 4*c+3) /\
+     znth (4*N + c) (z_crossing L) (0,0) = (0, - ((cy+1)/nv)) /\ znth (4*N + c) (honeycomb_coloring n) 0 = 1 /\
+     znth (5*N + c) (z_edges L) (0,0) = (4*(((cy+1) mod nv)*n + (cx+1) mod n), 4*c+3) /\
+     znth (5*N + c) (z_crossing L) (0,0) = (- ((cx+1)/n), - ((cy+1)/nv)) /\
+     znth (5*N + c) (honeycomb_coloring n) 0 = 2).
+Proof. exact honeycomb_index_structure_claim. Qed.
+Print Assumptions C10_honeycomb_index_structure.
+
+(* honeycomb positions (exact up to the uniform irrational y-shift 0.01/(sqrt3*nv), see Model/Examples.v) *)
+Theorem C10_honeycomb_positions :
+  forall n : Z, 1 <= n -> let nv := honeycomb_nv n in let L := honeycomb n in
+  z_scale L = 12 * n * nv * hc_D /\
+  forall cx cy, 0 <= cx < n -> 0 <= cy < nv -> let c := cy * n + cx in
+    znth (4*c) (z_pos L) (0,0) = ((1+4*cx)*(3*nv*hc_D), ((1+12*cy)*hc_D + hc_delta12)*n) /\
+    znth (4*c+1) (z_pos L) (0,0) = ((1+4*cx)*(3*nv*hc_D), ((5+12*cy)*hc_D + hc_delta12)*n) /\
+    znth (4*c+2) (z_pos L) (0,0) = ((3+4*cx)*(3*nv*hc_D), ((7+12*cy)*hc_D + hc_delta12)*n) /\
+    znth (4*c+3) (z_pos L) (0,0) = ((3+4*cx)*(3*nv*hc_D), ((11+12*cy)*hc_D + hc_delta12)*n).
+Proof. exact honeycomb_pos_index. Qed.
+Print Assumptions C10_honeycomb_positions.
+
+(* ===== Clause "hex-square-oct ... trivalent": index structure for ALL n >= 1 *)
+Theorem C10_hso_index_structure :
+  forall n : Z, 1 <= n -> let N := n * n in let L := hex_square_oct n in
+  (zlen (z_pos L) = 6 * N /\ zlen (z_edges L) = 9 * N /\ zlen (z_crossing L) = 9 * N) /\
+  (forall v, 0 <= v < 6 * N -> zdegree (z_edges L) v = 3) /\
+  (forall cx cy, 0 <= cx < n -> 0 <= cy < n -> let c := cy * n + cx in
+     (forall k, 0 <= k < 6 -> znth (6*c+k) (z_edges L) (0,0) = (6*c+k, 6*c+(k+1) mod 6) /\
+                              znth (6*c+k) (z_crossing L) (0,0) = (0,0)) /\
+     znth (6*N+c) (z_edges L) (0,0) = (6*c+4, 6*(cy*n+(cx+1) mod n)+2) /\ znth (6*N+c) (z_crossing L) (0,0) = ((cx+1)/n, 0) /\
+     znth (7*N+c) (z_edges L) (0,0) = (6*(cy*n+(cx+1) mod n)+1, 6*c+5) /\ znth (7*N+c) (z_crossing L) (0,0) = (-((cx+1)/n), 0) /\
+     znth (8*N+c) (z_edges L) (0,0) = (6*(((cy+1) mod n)*n+cx), 6*c+3) /\ znth (8*N+c) (z_crossing L) (0,0) = (0, -((cy+1)/n))).
+Proof. exact hso_index_structure_claim. Qed.
+Print Assumptions C10_hso_index_structure.
+
+(* ===== Clause "square lattice: ... coordination 4": index structure for ALL nx, ny >= 1, positions exact *)
+Theorem C10_square_index_structure :
+  forall nx ny : Z, 1 <= nx -> 1 <= ny -> let N := nx * ny in let L := square nx ny in
+  (zlen (z_pos L) = N /\ zlen (z_edges L) = 2 * N /\ zlen (z_crossing L) = 2 * N) /\
+  (forall v, 0 <= v < N -> zdegree (z_edges L) v = 4) /\
+  (forall i j, 0 <= i < nx -> 0 <= j < ny -> let c := i * ny + j in
+     znth c (z_pos L) (0,0) = ((2*i+1)*ny, (2*j+1)*nx) /\ z_scale L = 2*nx*ny /\
+     znth c (z_edges L) (0,0) = (((i-1) mod nx)*ny+j, c) /\ znth c (z_crossing L) (0,0) = (b2z (i =? 0), 0) /\
+     znth (N+c) (z_edges L) (0,0) = (i*ny+(j-1) mod ny, c) /\ znth (N+c) (z_crossing L) (0,0) = (0, b2z (j =? 0))).
+Proof. exact square_index_structure_claim. Qed.
+Print Assumptions C10_square_index_structure.
+
+(* ===== Clause "tri-non ... trivalent": a tiling (C10_tile_structure applies), 3-regular for ALL nx, ny >= 1 *)
+Theorem C10_tri_non_degree :
+  forall nx ny v : Z, 1 <= nx -> 1 <= ny -> 0 <= v < nx * ny * 4 -> zdegree (z_edges (tri_non nx ny)) v = 3.
+Proof. exact tri_non_degree. Qed.
+Print Assumptions C10_tri_non_degree.
+
+(* ===== Clause "every supplied colouring a proper 3-edge-colouring", for ALL sizes *)
+Theorem C10_coloring_proper :
+  (forall n : Z, 1 <= n ->
+     proper_coloring (4 * (honeycomb_nv n * n)) (z_edges (honeycomb n)) (honeycomb_coloring n) = true) /\
+  (forall nx ny : Z, 1 <= nx -> 1 <= ny ->
+     proper_coloring (nx * ny * 4) (z_edges (tri_non nx ny)) (tri_non_coloring nx ny) = true).
+Proof. exact coloring_proper_claim. Qed.
+Print Assumptions C10_coloring_proper.
+
+(* ===== Clauses "closed periodic tilings of the unit torus with the advertised polygons and nothing else,
+   V-E+F = 0, areas summing to 1" (+ every edge two-sided, degrees) — vm_compute through the shared
+   plaquette finder, for EXACTLY the size ranges of the property's quantifier (bounds in the statement). *)
+Theorem C10_polygons_bounded :
+  (forall n, 2 <= n <= 16 ->
+     tiling_claim (to_lattice (honeycomb n)) [(6%nat, Z.to_nat (2 * n * honeycomb_nv n))] 3) /\
+  (forall n, 2 <= n <= 8 ->
+     tiling_claim (to_lattice (hex_square_oct n))
+                  [(4%nat, Z.to_nat (n * n)); (6%nat, Z.to_nat (n * n)); (8%nat, Z.to_nat (n * n))] 3) /\
+  (forall nx ny, 2 <= nx <= 6 -> 2 <= ny <= 6 ->
+     tiling_claim (to_lattice (tri_non nx ny)) [(3%nat, Z.to_nat (nx * ny)); (9%nat, Z.to_nat (nx * ny))] 3) /\
+  (forall nx ny, 2 <= nx <= 8 -> 2 <= ny <= 8 ->
+     tiling_claim (to_lattice (square nx ny)) [(4%nat, Z.to_nat (nx * ny))] 4).
+Proof. exact polygons_bounded_claim. Qed.
+Print Assumptions C10_polygons_bounded.
+
+(* ===== Clause "the polygon, wheel, ladder ... helpers have the stated sizes": index structure for all n;
+   ladder census (exact rational positions, no wobble) for n = 3..30 *)
+Theorem C10_polygon_wheel_ladder_index :
+  (forall s ps n, 0 <= n -> let L := single_plaquette s ps n in
+     zlen (z_edges L) = n /\ zlen (z_crossing L) = n /\
+     forall i, 0 <= i < n -> znth i (z_edges L) (0,0) = (i, (i+1) mod n) /\ znth i (z_crossing L) (0,0) = (0,0)) /\
+  (forall s ps n, 0 <= n -> zlen ps = n -> let L := higher_coordination s ps n in
+     zlen (z_pos L) = n+1 /\ zlen (z_edges L) = 2*n /\ zlen (z_crossing L) = 2*n /\ znth n (z_pos L) (0,0) = (s/2, s/2) /\
+     (forall i, 0 <= i < n -> znth i (z_pos L) (0,0) = znth i ps (0,0)) /\
+     forall i, 0 <= i < n -> znth i (z_edges L) (0,0) = (i, (i+1) mod n) /\ znth (n+i) (z_edges L) (0,0) = (i, n) /\
+                            znth i (z_crossing L) (0,0) = (0,0) /\ znth (n+i) (z_crossing L) (0,0) = (0,0)) /\
+  (forall n, 0 <= n ->
+     zlen (ladder_edges n) = 3*n /\ zlen (ladder_crossing n) = 3*n /\ zlen (ladder_pos n) = 2*n /\
+     forall i, 0 <= i < n ->
+       znth i (ladder_edges n) (0,0) = (i, (i+1) mod n) /\
+       znth (n+i) (ladder_edges n) (0,0) = (i+n, (i+1) mod n + n) /\
+       znth (2*n+i) (ladder_edges n) (0,0) = (i, i+n) /\
+       znth i (ladder_crossing n) (0,0) = (b2z (i =? n-1), 0) /\
+       znth (n+i) (ladder_crossing n) (0,0) = (b2z (i =? n-1), 0) /\
+       znth (2*n+i) (ladder_crossing n) (0,0) = (0,0) /\
+       znth i (ladder_pos n) (0,0) = (n-1+18*i, 6*(n-1)) /\
+       znth (n+i) (ladder_pos n) (0,0) = (n-1+18*i, 14*(n-1))).
+Proof. exact polygon_wheel_ladder_index_claim. Qed.
+Print Assumptions C10_polygon_wheel_ladder_index.
+
+Theorem C10_ladder_census_bounded :
+  forall n, 3 <= n <= 30 ->
+  exists ps, find_all_plaquettes (to_lattice (n_ladder_straight n)) = Some ps /\
+    (forall k c, In (k, c) [(4%nat, Z.to_nat n)] -> count_sides ps k = c) /\
+    length ps = fold_right Nat.add 0%nat (map snd [(4%nat, Z.to_nat n)]) /\
+    (forall p, In p ps -> 0 < p_area2 p).
+Proof. exact ladder_census_bounded_claim. Qed.
+Print Assumptions C10_ladder_census_bounded.
+
+(* ===== Clause "ready-made Kitaev helpers (honeycomb ground-state bonds) have the stated ... flux sector":
+   make_honeycomb(L) returns u = +1 on all 6*L*nv edges (C10_honeycomb_index_structure) and, for L = 2..12,
+   every plaquette of the model lattice then carries flux +1 = ground_state_ansatz(6). *)
+Theorem C10_make_honeycomb_flux_bounded :
+  forall n, 2 <= n <= 12 ->
+  exists ps, find_all_plaquettes (to_lattice (honeycomb n)) = Some ps /\
+             forall p, In p ps -> flux_of (make_honeycomb_ujk n) p = 1.
+Proof. exact make_honeycomb_flux_bounded_claim. Qed.
+Print Assumptions C10_make_honeycomb_flux_bounded.
+
+(* ===== Non-vacuity: the hypotheses are satisfiable on non-trivial instances *)
+Example C10_tile_structure_nonvacuous :
+  wf_cell tri_non_cell = true /\ n_sites tri_non_cell = 4 /\ n_uedges tri_non_cell = 6 /\
+  (* a rectangular 3 x 2 tiling: copy (mx,my) = (2,1) (cell 5) of edge 4 = (3,0) with crossing (0,1) wraps in y,
+     copy (0,0) of edge 5 = (1,3) with crossing (-1,0) wraps in x *)
+  znth (5 * 6 + 4) (z_edges (tri_non 3 2)) (0,0) = (3 + 5 * 4, 0 + 2 * 4) /\
+  znth (5 * 6 + 4) (z_crossing (tri_non 3 2)) (0,0) = (0, 1) /\
+  znth (0 * 6 + 5) (z_edges (tri_non 3 2)) (0,0) = (1, 3 + 2 * 4) /\
+  znth (0 * 6 + 5) (z_crossing (tri_non 3 2)) (0,0) = (-1, 0) /\
+  proper_coloring (n_sites tri_non_cell) (uc_edges tri_non_cell) [1; 2; 0; 1; 2; 0] = true.
+Proof. vm_compute. repeat split; reflexivity. Qed.
+
+Example C10_polygons_nonvacuous :
+  honeycomb_nv 2 = 1 /\ honeycomb_nv 3 = 2 /\ honeycomb_nv 16 = 9 /\
+  nV (to_lattice (honeycomb 3)) = 24%nat /\ nE (to_lattice (honeycomb 3)) = 36%nat /\
+  wf_lattice (to_lattice (honeycomb 3)) = true /\ wf_lattice (to_lattice (tri_non 2 3)) = true.
+Proof. vm_compute. repeat split; reflexivity. Qed.
